@@ -70,13 +70,16 @@ class Func:
         self._ipdom = ip
         return ip
 
-    def simple_region(self, b, limit=60):
-        """If block b ends in an If: returns join block J when the region between b and its immediate
-        post-dominator is loop free (so both arms can be run to J and merged), else None."""
+    def simple_region(self, b, limit=400):
+        """If block b ends in an If: returns (J, loopfree) where J is the join block (immediate
+        post-dominator) such that both arms can be run to J and the arriving states merged; None when
+        there is no such block, b is a loop header (b reachable from its own successors) or the region is too big."""
         if b in self._simple:
             return self._simple[b]
         J = self.ipdom()[b]
         res = None
+        if J is None:
+            J = -1      # the arms only meet at the function's return: join = return to the caller
         if J is not None:
             seen = set()
             ok = True
@@ -96,14 +99,13 @@ class Func:
             if ok:
                 # cycle detection inside the region
                 color = {}
+                loopfree = True
 
                 def dfs(u):
                     color[u] = 1
                     for v in self.blocks[u]['succs']:
                         if v == J:
                             continue
-                        if v == b:
-                            return False
                         c = color.get(v, 0)
                         if c == 1:
                             return False
@@ -114,10 +116,9 @@ class Func:
                 for s in self.blocks[b]['succs']:
                     if s != J and color.get(s, 0) == 0:
                         if not dfs(s):
-                            ok = False
+                            loopfree = False
                             break
-            if ok:
-                res = J
+                res = (J, loopfree)
         self._simple[b] = res
         return res
 
